@@ -26,6 +26,7 @@ CommonMark (a line ending there is equivalent to a blank in the whitespace-norma
 import os
 import random
 import re
+import sys
 
 from runtime.common import use_repo, pool_map, Timer
 from runtime import mdgen
@@ -330,7 +331,12 @@ def run(tier, seed, workers):
         cases.append(('reflow' if i % 2 == 0 else 'reflowfree', base + 1_000_000 + i,
                       sample_ls(seed * 1_000_003 + i, k_big)))
     chunks = [cases[i:i + CHUNK] for i in range(0, len(cases), CHUNK)]
-    parts = pool_map(work, chunks, workers)
+    parts = []
+    step = max(1, workers) * 24
+    for lo in range(0, len(chunks), step):
+        parts.extend(pool_map(work, chunks[lo:lo + step], workers))
+        if os.environ.get('VERIF_PROGRESS'):
+            sys.stderr.write('b10: %d/%d work items, %.0f s\n' % (min(lo + step, len(chunks)), len(chunks), t.s()))
     out = {k: 0 for k in ('evaluations', 'contract_evaluations', 'failing_cases', 'excluded', 'docs',
                           'nontrivial')}
     failures, samples, maxdepth, classes = {}, [], 0, {}
